@@ -60,6 +60,8 @@ SCENARIOS = [
     dict(id=20, prior=[C("a", "G1", "S1"), C("c", "G1", "S2"), TEAR("c")], op=C("a", "G2", "S1")),
     dict(id=21, prior=[C("a", "G1", "S1"), C("c", "G1", "S2"), TEAR("c")], op=DEL("a")),
 ]
+# a layer downloaded in two parts (100 MB), part files kept across the restart
+BIG_SCENARIOS = [dict(id=30, prior=[], op=P("a", "big"), noprune=True, big=True)]
 QUICK_IDS = {2, 4, 6, 9, 12, 13, 15, 19}
 
 
@@ -74,9 +76,9 @@ def copy_store(src, dst):
         raise vf.Inconclusive("cp -a failed: " + p.stdout.decode(errors="replace")[-300:])
 
 
-def serve(ctx, sdir, tag, models, noprune, strace_log=None):
+def serve(ctx, sdir, tag, models, noprune, strace_log=None, strsize="100000000"):
     env = {"OLLAMA_NOPRUNE": "1"} if noprune else {"OLLAMA_NOPRUNE": ""}
-    return cd.Proc(ctx.binary, "serve", sdir, tag, models=models, strace_log=strace_log, env=env)
+    return cd.Proc(ctx.binary, "serve", sdir, tag, models=models, strace_log=strace_log, env=env, strsize=strsize)
 
 
 def restart_redo(ctx, sc, sdir, reg, models, tag):
@@ -87,6 +89,9 @@ def restart_redo(ctx, sc, sdir, reg, models, tag):
         api1 = cd.project_api(ctx.world, s1, reg.port)
         disk1 = cd.project_disk(ctx.world, models)
         redo = cd.do_op(ctx.world, s1, reg, sc["op"])
+        redo2 = 0
+        if not (redo == 200 or (sc["op"]["op"] == "delete" and redo == 404)):
+            redo2 = cd.do_op(ctx.world, s1, reg, sc["op"])     # repeated once more
     finally:
         s1.kill()
     s2 = serve(ctx, sdir, tag + "r2", models, np)
@@ -95,7 +100,7 @@ def restart_redo(ctx, sc, sdir, reg, models, tag):
         disk2 = cd.project_disk(ctx.world, models)
     finally:
         s2.kill()
-    return {"r1": {**disk1, **api1}, "redo": redo, "r2": {**disk2, **api2}}
+    return {"r1": {**disk1, **api1}, "redo": redo, "redo2": redo2, "r2": {**disk2, **api2}}
 
 
 def run_scenario(ctx, sc, kills, rnd_seed):
@@ -165,7 +170,7 @@ def run_scenario(ctx, sc, kills, rnd_seed):
         norm, nmain, upto = cd.normalise(window)
         opn = {k: sc["op"].get(k, "") for k in ("op", "n", "m", "g", "s", "v")}
         recs.append({"ev": "scenario", "t": sc["id"], "op": opn, "prior": sc["prior"], "noprune": np, "involved": cd.involved(sc["op"]),
-                     "pre": pre, "ref": ref, "effects": norm, "nmain": nmain, "labels": abstract})
+                     "pre": pre, "ref": ref, "effects": norm, "nmain": nmain, "labels": abstract, "big": False})
         canon_of = {}
         for k, lab, st in states:
             c = st.canon()
@@ -228,6 +233,101 @@ def run_scenario(ctx, sc, kills, rnd_seed):
     return recs
 
 
+def run_big_scenario(ctx, sc, whens):
+    """a layer that is downloaded in two parts (> 100 MB), part files kept across the restart.  The effect trace is taken with
+    short strings (the log must not hold the data) and only its beginning is used: every prefix of the effects up to the first
+    one on the data file, i.e. the crash points inside blobDownload.Prepare while it creates its part files.  A few real
+    SIGKILLs (before the N-th openat of a thread) are added."""
+    sdir = os.path.join(ctx.wd, f"s{sc['id']}")
+    os.makedirs(sdir)
+    np = bool(sc.get("noprune"))
+    reg = cd.Proc(ctx.binary, "registry", sdir, "reg")
+    recs = []
+    try:
+        d0 = os.path.join(sdir, "d0")
+        os.makedirs(d0)
+        pre = cd.project_disk(ctx.world, d0)
+        dt = os.path.join(sdir, "dt")
+        os.makedirs(dt)
+        log = os.path.join(sdir, "strace.log")
+        s = serve(ctx, sdir, "traced", dt, np, strace_log=log, strsize="600")
+        try:
+            s.request("HEAD", "/api/blobs/sha256:" + cd.MARK_A)
+            code = cd.do_op(ctx.world, s, reg, sc["op"])
+        finally:
+            s.kill()
+        if code != 200:
+            raise vf.Inconclusive(f"scenario {sc['id']}: the uninterrupted operation failed with {code}")
+        model = cd.FsModel.load(d0)
+        base = model.clone()
+        effects, marks = cd.parse_strace(log, dt, model, ctx.world)
+        os.remove(log)
+        if "a" not in marks:
+            raise vf.Inconclusive(f"scenario {sc['id']}: marker not found in the strace log")
+        ref = restart_redo_ref(ctx, sc, sdir, reg, dt)
+        shutil.rmtree(dt, ignore_errors=True)
+        opn = {k: sc["op"].get(k, "") for k in ("op", "n", "m", "g", "s", "v")}
+        recs.append({"ev": "scenario", "t": sc["id"], "op": opn, "prior": sc["prior"], "noprune": np, "involved": cd.involved(sc["op"]),
+                     "pre": pre, "ref": ref, "effects": [], "nmain": 0, "labels": [], "big": True})
+        cur, seen = base, set()
+        for i, e in enumerate(effects):
+            if i >= marks["a"] and e["rec"]["o"] in ("partial", "blob"):
+                break                                   # the data starts here
+            e["fn"](cur)
+            if i < marks["a"]:
+                continue
+            c = cur.canon()
+            if c in seen:
+                continue
+            seen.add(c)
+            dk = os.path.join(sdir, f"k{i}")
+            cur.materialise(dk)
+            out = restart_redo(ctx, sc, sdir, reg, dk, f"k{i}")
+            recs.append({"ev": "state", "t": sc["id"], "k": i + 1, "kn": 0, "eff": e["abs"], "src": "prefix", **out})
+            shutil.rmtree(dk, ignore_errors=True)
+        for j, n in enumerate(whens):
+            dr = os.path.join(sdir, f"kill{j}")
+            os.makedirs(dr)
+            s = serve(ctx, sdir, f"kill{j}", dr, np)
+            tracer = None
+            try:
+                tracer = subprocess.Popen(["strace", "-f", "-p", str(s.pid), "-o", "/dev/null", "-e", "trace=openat",
+                                           "-e", f"inject=openat:signal=KILL:when={n}"],
+                                          stdout=subprocess.DEVNULL, stderr=subprocess.DEVNULL)
+                t0 = time.time()
+                while time.time() - t0 < 10:
+                    try:
+                        if any(l.startswith("TracerPid:") and l.split()[1] != "0" for l in open(f"/proc/{s.pid}/status")):
+                            break
+                    except OSError:
+                        break
+                    time.sleep(0.01)
+                time.sleep(0.1)
+                code = cd.do_op(ctx.world, s, reg, sc["op"])
+                t1 = time.time()
+                while code == 0 and s.alive() and time.time() - t1 < 3:
+                    time.sleep(0.02)
+                died = not s.alive()
+            finally:
+                s.kill()
+                if tracer:
+                    try:
+                        tracer.wait(timeout=10)
+                    except subprocess.TimeoutExpired:
+                        tracer.kill()
+            files = sorted(os.listdir(os.path.join(dr, "blobs"))) if os.path.isdir(os.path.join(dr, "blobs")) else []
+            if died:
+                out = restart_redo(ctx, sc, sdir, reg, dr, f"kill{j}")
+                recs.append({"ev": "state", "t": sc["id"], "k": 1000 + j, "kn": 0, "eff": f"sigkill-when-{n} leaving {[f[-12:] for f in files]}",
+                             "src": "kill", **out})
+            recs.append({"ev": "kill", "t": sc["id"], "n": n, "died": died, "code": code, "is_prefix_state": False})
+            shutil.rmtree(dr, ignore_errors=True)
+    finally:
+        reg.kill()
+        shutil.rmtree(sdir, ignore_errors=True)
+    return recs
+
+
 def restart_redo_ref(ctx, sc, sdir, reg, dt):
     s = serve(ctx, sdir, "ref", dt, bool(sc.get("noprune")))
     try:
@@ -276,10 +376,14 @@ def run(tier="quick", seed=1, replay=None):
         else:
             scs = [s for s in SCENARIOS if not quick or s["id"] in QUICK_IDS]
             scs += [w for w in vf.load_witnesses(PROP) if not quick or w["id"] == 900002]
+            scs += BIG_SCENARIOS
         kills = 3 if quick else 12
         recs = []
         with cf.ThreadPoolExecutor(max_workers=8 if quick else 14) as ex:
-            futs = {ex.submit(run_scenario, ctx, sc, kills, seed): sc for sc in scs}
+            futs = {ex.submit(run_scenario, ctx, sc, kills, seed): sc for sc in scs if not sc.get("big")}
+            for sc in scs:
+                if sc.get("big"):
+                    futs[ex.submit(run_big_scenario, ctx, sc, [4, 6, 9])] = sc
             for f in cf.as_completed(futs):
                 recs += f.result()
         recs.sort(key=lambda r: (r["t"], {"scenario": 0, "state": 1, "kill": 2}[r["ev"]], r.get("k", 0)))
@@ -294,9 +398,14 @@ def run(tier="quick", seed=1, replay=None):
         vf.copy_specs(wd)
         v = vf.validate_trace("Trace_Crash", "Trace_Crash.cfg", trace, wd, timeout=3000)
         by_t = {s["id"]: s for s in scs}
+        findings = {f["id"]: f for f in vf.load_findings(PROP)}
+        kf_big = 0
         shown = {}
         for ln, tid, flags in v["bad"]:
             r = recs[ln - 1]
+            if by_t[r["t"]].get("big") and flags == ["redo-failed"] and r.get("redo2") == 200 and "multipart-resume-with-incomplete-part-list" in findings:
+                kf_big += 1
+                continue
             key = (r["t"], tuple(flags))
             shown[key] = shown.get(key, 0) + 1
             if shown[key] > 1 or len(res.violations) >= 12:
@@ -306,6 +415,9 @@ def run(tier="quick", seed=1, replay=None):
                           f"{', OLLAMA_NOPRUNE=1' if by_t[r['t']].get('noprune') else ''}) after {r['src']} crash state k={r['k']} ({r['eff']}): "
                           f"restart -> {json.dumps(r['r1'])[:300]} redo={r['redo']} -> {json.dumps(r['r2'])[:300]}", p)
         cov["violation_kinds"] = {f"s{k[0]}:" + ",".join(k[1]): n for k, n in shown.items()}
+        if kf_big:
+            res.known_finding(f"{findings['multipart-resume-with-incomplete-part-list']['what']} ({kf_big} kill points)")
+        cov["known_finding_states"] = kf_big
         for ln, tid, flags in v["drift"][:6]:
             res.note(f"model drift {flags} at scenario {recs[ln - 1]['t']} {recs[ln - 1].get('eff', '')}")
         cov["model_drift_lines"] = len(v["drift"])
